@@ -95,7 +95,7 @@ HELPERS = ["lower", "upper", "fields"]
 NAMES = ["r", "net", "f", "string"] + HELPERS + ["str", "any"] + ["len", "open"]
 GENFLAGS = ["none", "f", "string", "fields", "f_op", "net_val", "late_string"]
 ATTRS = ["strip", "upper", "__class__", "__x", "s", "ipaddress", "fl", "o"]
-CONTEXTS = ["bare", "arg", "operand", "listelt", "genelt", "geniter", "gencond", "kwarg", "not", "boolop", "add_list", "mult", "bitor", "helper_strings", "helper_fields", "primed", "fields_arg", "fields_kwarg"]
+CONTEXTS = ["bare", "arg", "operand", "listelt", "genelt", "geniter", "gencond", "kwarg", "not", "boolop", "add_list", "mult", "bitor", "helper_strings", "helper_fields", "primed", "fields_arg", "fields_kwarg", "helper_unknown_kwarg", "helper_extra_positional"]
 
 
 def targets():
@@ -139,6 +139,8 @@ def render(t, g, ctx):
         "add_list": f"({X} + ['y']) == 1", "mult": f"({X} * 2) == 1", "bitor": f"({X} | 1) == 1",
         "helper_strings": f"field_equals(r, ['c'], {X})", "helper_fields": f"field_contains(r, {X}, ['zz'])",
         "primed": f"{X} == 1",
+        # parameters a helper does not document: an extra keyword, an extra positional argument
+        "helper_unknown_kwarg": f"field_equals(r, ['c'], ['canary'], _lower={X})", "helper_extra_positional": f"field_contains(r, ['c'], ['canary'], True, False, {X})",
         "fields_arg": f"any(f.name == 'x' for f in fields({X}))", "fields_kwarg": f"any(f.name == 'x' for f in fields(typename={X}))",
     }[ctx]
     if g == "late_string":
@@ -200,7 +202,7 @@ def run(tier):
 
     ctx = check.Ctx(PROP, tier)
     thorough = tier == "thorough"
-    ctx.design("Policy", "MC_Policy.cfg", "all call/read shapes (15 bases x chains <= 2 over 5 attribute classes) x in-generator flag x 10 contexts", workers=4)
+    ctx.design("Policy", "MC_Policy.cfg", "all call/read shapes (15 bases x chains <= 2 over 5 attribute classes) x 8 in-generator flags x 20 contexts", workers=4)
     if thorough:
         ctx.sensitivity("Policy", "MC_Policy_dev_Path.cfg", "as-built path resolution must violate OnlyWhitelistedInvoked", "OnlyWhitelistedInvoked", workers=4)
         ctx.sensitivity("Policy", "MC_Policy_dev_GenVar.cfg", "generator variable as call target must violate OnlyWhitelistedInvoked", "OnlyWhitelistedInvoked", workers=4)
